@@ -231,3 +231,152 @@ def c04_r14(ctx):
     cs = comp_struct(strip_pre(cds[0])) if cds else None
     ctx.check(cs is not None and cs[0] in ("self._parse_enum_definition($0)", "self._parse_enum_definition(definition=$0)") and [(str(a), list(map(str, b))) for a, b in cs[1]] == [("self._filter_enum_types()", [])],
               key(init, "all enums"), f"class definitions are {cs}: one per schema enum", init.loc(), okmsg="one class per schema enum")
+
+
+# ====================================================================== custom operations: the emitted builder classes
+CFG_ = "client_generators.custom_fields:CustomFieldsGenerator."
+CFT_ = "client_generators.custom_fields_typing:CustomFieldsTypingGenerator."
+
+EMITTED_METHODS = {
+    "fields": "def fields(self, *subfields):\n    self._subfields.extend(subfields)\n    return self",
+    "on": "def on(self, type_name, *subfields):\n    self._inline_fragments[type_name] = subfields\n    return self",
+    "alias": "def alias(self, alias):\n    self._alias = alias\n    return self",
+}
+
+
+@rule("C14.R9", "the emitted builder classes: fields() extends the sub-selection, on() stores an inline fragment under its type, alias() sets the alias, each returning the builder; "
+                "one member per (own or inherited) schema field; object / interface / union / leaf fields get the builder class of their kind", min_instances=18, also=["C04"])
+def c14_r9(ctx):
+    from ..shape import Shaper, renders
+    repo = ctx.repo
+    sh = Shaper(repo)
+    # (a) the three chaining methods, as emitted (annotations and docstrings of the emitted code left out)
+    for fk, meth in ((CFG_ + "_generate_fields_method", "fields"), (CFG_ + "_generate_on_method", "on"), (CFG_ + "_generate_alias_method", "alias"),
+                     (CFT_ + "_generate_on_method", "on"), (CFT_ + "_generate_alias_method", "alias")):
+        fi = repo.func(fk)
+        got = renders(sh.call_function(fi))
+        want = ast.unparse(ast.parse(EMITTED_METHODS[meth]))
+        ctx.check(got == [want], key(fi, f"emitted {meth}()"), f"{fi.qualname} emits\n{chr(10).join(got)[:400]}\nexpected\n{want}\n(a builder method that does not store its argument on the builder, "
+                  "or does not return the builder, yields documents that miss the sub-selection / inline fragment / alias the caller asked for)", fi.loc(), okmsg=f"{fi.qualname}: emits {meth}() as specified")
+    # (b) class body: one member per combined field, then fields() and alias()
+    cb = repo.func(CFG_ + "_generate_class_def_body")
+    eff = lambda c: norm(c.func) == "class_def.body.append"
+    outs = [o for o in Interp(cb, lambda e: None, is_effect=eff).run() if o.kind == "return" and any("loop body once" in t for t in o.trace)]
+    good = len(outs) >= 1
+    for o in outs:
+        calls = [strip_pre(allargs(strip_pre(e))[0]) for e in o.effects if allargs(strip_pre(e))]
+        names = [dotted(c.func) if isinstance(c, ast.Call) else norm(c) for c in calls]
+        good = good and names == ["self._generate_class_field", "self._generate_fields_method", "self._generate_alias_method"] and is_name(strip_pre(o.value), "class_def")
+        if good:
+            el = "<elem>(enumerate(self._get_combined_fields(definition=definition).items(), start=1))"
+            cf = calls[0]
+            a = {k: norm(strip_pre(o.deref(v)) if isinstance(v, ast.Name) else v) for k, v in ((k_, argv(cf, i, k_)) for i, k_ in enumerate(("name", "field_name", "org_name", "field", "method_required", "lineno"))) if v is not None}
+            good = a.get("org_name") == f"{el}[1][0]" and a.get("field") == f"{el}[1][1]" and str(a.get("name", "")).startswith("process_name(") and f"{el}[1][0]" in str(a.get("name", "")) and "convert_to_snake_case=self.convert_to_snake_case" in str(a.get("name", ""))
+            fm = calls[1]
+            good = good and norm(argv(fm, 0, "class_name") or ast.Constant(0)) == "class_name" and norm(argv(calls[2], 0, "class_name") or ast.Constant(0)) == "class_name"
+    ctx.check(good, key(cb, "class body"), f"the builder class of a type is not: one member per combined field (python name = process_name(GraphQL name), constructed with the GraphQL name), then fields(), then alias(): "
+              f"{[o.text()[:160] for o in outs][:1]}", cb.loc(), okmsg="builder class = members of all combined fields + fields() + alias()")
+    skip = [o for o in Interp(cb, lambda e: None, is_effect=eff).run() if o.kind == "return" and any("loop skipped" in t for t in o.trace)]
+    ctx.check(bool(skip) and all([dotted(strip_pre(allargs(strip_pre(e))[0]).func) for e in o.effects] == ["self._generate_fields_method", "self._generate_alias_method"] for o in skip), key(cb, "empty type"),
+              "a type without fields must still get fields() and alias()", cb.loc(), okmsg="type without fields -> fields() + alias()")
+    # (c) combined fields = own fields overlaid with the fields of every interface
+    gc = repo.func(CFG_ + "_get_combined_fields")
+    outs = [o for o in Interp(gc, lambda e: None).run() if o.kind == "return" and any("loop body once" in t for t in o.trace)]
+    good = bool(outs)
+    for o in outs:
+        nm = o.value.id if isinstance(o.value, ast.Name) else None
+        base = norm(strip_pre(o.deref(o.value))) if nm else ""
+        ms = [norm(strip_pre(m)) for m in (o.muts(nm) if nm else [])]
+        good = good and base in ("dict(definition.fields.items())", "dict(definition.fields)", "{**definition.fields}") and \
+            any("<elem>(getattr(definition, 'interfaces', []))" in m and ".fields" in m and ("update(" in m) for m in ms)
+    ctx.check(good, key(gc, "combined"), f"combined fields must be the type's own fields updated with the fields of each of its interfaces: {[o.text()[:140] for o in outs]}", gc.loc(),
+              okmsg="combined fields = own fields + fields of every interface")
+    # (d) which builder class a field of a given kind gets
+    gf = repo.func(CFG_ + "_get_field_name")
+    eff2 = lambda c: norm(c.func) == "self._add_import"
+    kinds = {"GraphQLObjectType": ("f'{final_type.name}Fields'", True, False), "GraphQLInterfaceType": ("f'{final_type.name}Interface'", True, False),
+             "GraphQLUnionType": ("f'{final_type.name}Union'", False, True), None: ("f'{definition_name}GraphQLField'", False, True)}
+    for kind, (txt, method_required, imported) in kinds.items():
+        def atom(e, kind=kind):
+            t = norm(strip_pre(e))
+            if t.startswith("isinstance(final_type, "):
+                return kind is not None and t == f"isinstance(final_type, {kind})"
+            return None
+        outs = [o for o in Interp(gf, atom, is_effect=eff2).run() if o.kind == "return"]
+        good = bool(outs)
+        for o in outs:
+            v = strip_pre(o.value)
+            first = strip_pre(o.deref(v.elts[0])) if isinstance(v, ast.Tuple) and isinstance(v.elts[0], ast.Name) else (v.elts[0] if isinstance(v, ast.Tuple) else None)
+            good = good and isinstance(v, ast.Tuple) and len(v.elts) == 2 and first is not None and norm(first) == txt and is_const(v.elts[1], method_required) and bool(o.effects) == imported
+            if imported and o.effects:
+                imp = norm(strip_pre(o.effects[0]))
+                good = good and "from_='custom_typing_fields'" in imp and "level=1" in imp and f"names=[{txt}]" in imp
+        ctx.check(good, key(gf, f"kind {kind or 'leaf'}"), f"a field whose final type is {kind or 'a scalar / enum'} must be built by {txt} (method: {method_required}, imported from custom_typing_fields: {imported}); "
+                  f"got {[o.text()[:120] for o in outs]}", gf.loc(), okmsg=f"{kind or 'leaf'} field -> {txt}")
+    # (e) member form: a method when the field takes arguments or selects an object / interface, else a class attribute built with the GraphQL name
+    cf = repo.func(CFG_ + "_generate_class_field")
+    for has_args, required in ((True, False), (False, True), (False, False)):
+        def atom(e, has_args=has_args, required=required):
+            t = norm(strip_pre(e))
+            if t in ("getattr(field, 'args')", "field.args"):
+                return has_args
+            if t == "method_required":
+                return required
+            return None
+        outs = [o for o in Interp(cf, atom).run() if o.kind == "return"]
+        if has_args or required:
+            good = bool(outs) and all(isinstance(strip_pre(o.value), ast.Call) and norm(strip_pre(o.value).func) == "self.generate_product_type_method" and
+                                      norm(kw(strip_pre(o.value), "org_name") or ast.Constant(0)) == "org_name" for o in outs)
+        else:
+            good = bool(outs) and all(isinstance(strip_pre(o.value), ast.Call) and dotted(strip_pre(o.value).func) == "generate_ann_assign" and
+                                      "generate_call(func=generate_name(name=field_name), args=[generate_constant(value=org_name)])" in norm(strip_pre(o.value)) and
+                                      "target=generate_name(name=name)" in norm(strip_pre(o.value)) for o in outs)
+        ctx.check(good, key(cf, f"args={has_args} method_required={required}"), f"[field with arguments={has_args}, object/interface type={required}] member must be "
+                  f"{'a classmethod built by generate_product_type_method(..., org_name=org_name)' if has_args or required else 'the attribute `name = <FieldClass>(<GraphQL name>)`'}: {[o.text()[:140] for o in outs]}",
+                  cf.loc(), okmsg=f"args={has_args} object={required} -> {'method' if has_args or required else 'attribute'} carrying the GraphQL name")
+    # (f) which types get a builder class; interfaces also get on()
+    po = repo.func(CFG_ + "_parse_object_type_definitions")
+    eff3 = lambda c: norm(c.func) in ("class_defs.append", "class_def.body.append")
+    for kind, on in (("GraphQLObjectType", False), ("GraphQLInterfaceType", True), (None, None)):
+        def atom(e, kind=kind):
+            t = norm(strip_pre(e))
+            if t.startswith("isinstance("):
+                return kind is not None and t.endswith(f", {kind})")
+            return None
+        outs = [o for o in Interp(po, atom, is_effect=eff3).run() if o.kind == "return" and any("loop body once" in t for t in o.trace)]
+        effs = [[norm(strip_pre(e)) for e in o.effects] for o in outs]
+        if kind is None:
+            good = bool(outs) and all(not e for e in effs)
+        else:
+            good = bool(outs) and all(any(x.startswith("class_defs.append(") for x in e) and (any("self._generate_on_method(" in x for x in e) == on) for e in effs)
+            good = good and all(any("self._generate_class_def_body(" in norm(v) for v in o.env.values() if isinstance(v, ast.AST)) or any("self._generate_class_def_body(" in x for x in e) for o, e in zip(outs, effs))
+        ctx.check(good, key(po, f"type kind {kind or 'other'}"), f"[{kind or 'scalar / enum / input / union'}] builder classes: {effs[:1]}; expected "
+                  f"{'none' if kind is None else 'one class' + (' with on()' if on else ' without on()')}", po.loc(), okmsg=f"{kind or 'other kinds'} -> {'no class' if kind is None else 'class' + (' + on()' if on else '')}")
+
+
+@rule("C14.R10", "a builder class is named exactly as the members that reference it name it (type name + Fields / Interface), and every generated class is returned", min_instances=4, also=["C04"])
+def c14_r10(ctx):
+    repo = ctx.repo
+    gs = repo.func(CFG_ + "_get_suffix")
+    for kind, want in (("GraphQLObjectType", "'Fields'"), ("GraphQLInterfaceType", "'Interface'")):
+        outs = Interp(gs, lambda e, kind=kind: (norm(strip_pre(e)) == f"isinstance(graphql_type, {kind})" if norm(strip_pre(e)).startswith("isinstance(graphql_type, ") else None)).run()
+        ctx.check(bool(outs) and all(o.kind == "return" and norm(strip_pre(o.value)) in (want, {"'Fields'": "GRAPHQL_OBJECT_SUFFIX", "'Interface'": "GRAPHQL_INTERFACE_SUFFIX"}[want]) for o in outs),
+                  key(gs, kind), f"the class of a {kind} is suffixed {[o.text()[:60] for o in outs]}, the members referencing it use {want} (_get_field_name): NameError / wrong builder in custom_fields.py", gs.loc(),
+                  okmsg=f"{kind} -> suffix {want}")
+    po = repo.func(CFG_ + "_parse_object_type_definitions")
+    outs = [o for o in Interp(po, lambda e: (True if norm(strip_pre(e)).startswith("isinstance(") else None), is_effect=lambda c: norm(c.func) == "class_defs.append").run()
+            if any("loop body once" in t for t in o.trace)]
+    good = bool(outs) and all(o.kind == "return" and is_name(strip_pre(o.value), "class_defs") for o in outs)
+    names = set()
+    for o in outs:
+        for v in list(o.env.values()) + list(o.effects):
+            if isinstance(v, ast.AST):
+                for c in ast.walk(v):
+                    if isinstance(c, ast.Call) and norm(c.func) == "self._generate_class_def_body":
+                        cn = kw(c, "class_name")
+                        if cn is not None:
+                            names.add(norm(cn))
+    ctx.check(good, key(po, "returned"), f"the generated builder classes are not returned: {[o.text()[:80] for o in outs][:2]}", po.loc(), okmsg="all generated builder classes are returned")
+    ctx.check(names == {"f'{<elem>(type_names) and self.schema.get_type(<elem>(type_names)).name}{self._get_suffix(graphql_type=self.schema.get_type(<elem>(type_names)))}'"} or
+              all(("self._get_suffix(" in n and ".name" in n) for n in names) and bool(names), key(po, "class name"),
+              f"builder classes are named {sorted(names)}; expected <type name> + _get_suffix(<type>)", po.loc(), okmsg="builder class name = type name + kind suffix")
